@@ -248,7 +248,7 @@ type compiledMark struct{ form *lst }
 
 // ---------------------------------------------------------------- history steps
 
-var defHeads = map[sym]bool{"defun": true, "defmacro": true, "defvar": true, "defparameter": true}
+var defHeads = map[sym]bool{"defun": true, "defmacro": true, "defvar": true, "defparameter": true, "defconstant": true}
 
 func (m *refMachine) run(f func() val) (o obs) {
 	m.trace = nil
@@ -364,7 +364,7 @@ func (m *refMachine) intArg(v val, op string) int {
 
 var specialForms = map[sym]bool{"quote": true, "function": true, "if": true, "let": true, "let*": true, "progn": true,
 	"setq": true, "cond": true, "when": true, "unless": true, "and": true, "or": true, "defun": true, "defmacro": true,
-	"defvar": true, "defparameter": true, "backquote": true, "lambda": true, "return-from": true}
+	"defvar": true, "defparameter": true, "defconstant": true, "backquote": true, "lambda": true, "return-from": true}
 
 var builtins = map[sym]bool{"+": true, "-": true, "*": true, "<": true, ">": true, "=": true, "list": true, "first": true,
 	"second": true, "third": true, "car": true, "cdr": true, "listp": true, "not": true, "null": true, "tr": true, "eval": true,
@@ -518,7 +518,7 @@ func (m *refMachine) evalList(l *lst, e *env) val {
 			}
 		}
 		return r
-	case "defvar", "defparameter":
+	case "defvar", "defparameter", "defconstant":
 		name := args[0].(sym)
 		if _, has := m.globals[name]; has && head == "defvar" {
 			return name
